@@ -238,6 +238,10 @@ func cmdCheck(args []string) int {
 	smokeRun, smokeBad := 0, 0
 	var unsup []string
 	os.MkdirAll(filepath.Join(*verifDir, "replays"), 0755)
+	resByKey := map[string]*FuncResult{}
+	for _, r := range results {
+		resByKey[r.Key] = r
+	}
 	report := func(id string, ob *Obligation, status, detail, model, fnKey string) {
 		// known finding?
 		for _, k := range known {
@@ -257,7 +261,7 @@ func cmdCheck(args []string) int {
 		suffix := " no-failing-input-found"
 		if model != "" {
 			rep["model"] = truncate(model, 20000)
-			if ok, out := p.tryReplay(fnKey, ob, model); out != "" {
+			if ok, out := p.replayObligation(*verifDir, *repo, id, resByKey[fnKey], ob); out != "" {
 				rep["replay_output"] = out
 				if ok {
 					suffix = ""
